@@ -223,7 +223,7 @@ def registry_test_source(pkgname, harness_files):
     return "\n".join(lines)
 
 
-def native_replay(build, pkg, harness, params, values, tag="r", cpus=None, timeout=600):
+def native_replay(build, pkg, harness, params, values, tag="r", cpus=None, timeout=180, extra_env=None):
     """run one harness natively with the given nondet values.
     returns dict(failed labels, notes, skipped, output, ok)"""
     rel = D.PKGDIRS[pkg]
@@ -246,6 +246,9 @@ def native_replay(build, pkg, harness, params, values, tag="r", cpus=None, timeo
     if cpus:
         cmd = ["taskset", "-c", "0-%d" % (cpus - 1)] + cmd
     env = dict(D.GOENV, VERIF_REPLAY=rf)
+    if extra_env:
+        env.update(extra_env)
+    cmd[cmd.index("-count=1") + 1:cmd.index("-count=1") + 1] = ["-timeout", "%ds" % max(30, timeout - 30)]
     try:
         r = subprocess.run(cmd, cwd=D.REPO, env=env, capture_output=True, text=True, timeout=timeout)
         out = r.stdout + r.stderr
@@ -259,6 +262,9 @@ def native_replay(build, pkg, harness, params, values, tag="r", cpus=None, timeo
     for m in re.finditer(r"^VERIF-NOTE (\S+) (.*)$", out, re.M):
         notes.setdefault(m.group(1), []).append(json.loads(m.group(2)))
     built = "build failed" not in out and "[setup failed]" not in out
+    crashed = built and (out == "TIMEOUT" or "test timed out" in out or "fatal error:" in out or re.search(r"^panic: ", out, re.M) is not None)
+    if crashed:
+        panics = panics + ["process crashed or hung: " + (re.findall(r"^(?:panic|fatal error): .*$", out, re.M) or ["timeout"])[0]]
     return {"failed": failed, "panics": panics, "notes": notes, "skipped": "VERIF-ASSUME-SKIP" in out, "output": out[-4000:],
             "rc": rc, "built": built, "path": rf}
 
@@ -270,10 +276,20 @@ def std_replay(build, pkg, harness, params, match=None, cpus=None):
     """replay callback: reproduced iff the native harness fails an assertion (optionally matching the label) or panics"""
     def cb(rec):
         _REPLAY_N[0] += 1
+        lab = rec["label"]
+        if lab.startswith(("channel protocol", "deadlock", "join")):
+            # schedule-dependent: a few native runs under different scheduler settings
+            res = None
+            for env in ({"GOMAXPROCS": "1"}, {}, {"GOMAXPROCS": "2"}, {"GOMAXPROCS": "1"}):
+                res = native_replay(build, pkg, harness, params, rec.get("model") or {}, tag="%s_%d" % (harness.rsplit('.', 1)[-1], _REPLAY_N[0]), cpus=cpus, extra_env=env, timeout=120)
+                if not res["built"]:
+                    return None, res["path"]
+                if res["failed"] or res["panics"]:
+                    return True, res["path"]
+            return False, res["path"]
         res = native_replay(build, pkg, harness, params, rec.get("model") or {}, tag="%s_%d" % (harness.rsplit('.', 1)[-1], _REPLAY_N[0]), cpus=cpus)
         if not res["built"]:
             return None, res["path"]
-        lab = rec["label"]
         if lab.startswith("panic:"):
             return (len(res["panics"]) > 0 or any("panic" in f for f in res["failed"])), res["path"]
         rep = any((lab == f or lab in f or f in lab) for f in res["failed"]) or (bool(res["failed"]) and match is None and False)
